@@ -756,8 +756,8 @@ pub fn run_all(ctx: &mut Ctx, replay: Option<&Path>) {
     let l = ctx.tier.pick(4, 5);
     ctx.exhaustive(&i, &format!("all histories of length <= {l} over an 18-operation alphabet on two slots"), crate::props::c01::Shortlex::new(iop_alphabet(), l));
     ctx.random(&i, proptest::collection::vec(iop_strategy(), 0..60), ctx.tier.pick(5000, 50_000));
-    ctx.random(&c, (0u8..N_COMPONENTS, 0u8..9, 0u8..5, any::<u64>()).prop_map(|(which, size, dim, seed)| CompCase { which, size, dim, seed }), ctx.tier.pick(6000, 60_000));
-    let per = ctx.tier.pick(60, 600);
+    ctx.random(&c, (0u8..N_COMPONENTS, 0u8..9, 0u8..5, any::<u64>()).prop_map(|(which, size, dim, seed)| CompCase { which, size, dim, seed }), ctx.tier.pick(20_000, 100_000));
+    let per = ctx.tier.pick(150, 800);
     for k in 0..21 {
         let r = RunCheck(k);
         ctx.regressions(&r);
